@@ -10,6 +10,7 @@ CONSTANTS
   PREC = {}
   MAXFULL = {}
   SOLVER = {}
+  SCALES = {"unit"}
   SYSCLS = {}
 INVARIANT WellTyped
 CHECK_DEADLOCK FALSE
